@@ -16,6 +16,7 @@
 (*                            e; viol: it violates the protocol in the      *)
 (*                            current state; res = "ok" | "err"             *)
 (*   Panic(e)                 a call into end e panicked                    *)
+(*   End                      both ends polled dry, all timers ran out      *)
 (***************************************************************************)
 EXTENDS Integers, Sequences
 CONSTANTS AckTimeout, Slack     \* seconds
@@ -64,4 +65,6 @@ InjectOk(e, cls, viol, res, s) == viol => res = "err"
 AfterInject(e, cls, viol, res, s) == [s EXCEPT !.hostile = TRUE]
 
 PanicOk(e, s) == FALSE       \* never
+\* between well-behaved ends, once traffic has stopped and all timers ran out: everything handed in has come out
+EndOk(s) == s.hostile \/ \A e \in Ends : s.fetched[e] = Len(s.submitted[Peer(e)])
 =============================================================================
